@@ -227,6 +227,17 @@ class Check:
             self.count("corr_mismatch_more")
         return False
 
+    def in_flight(self, case) -> None:
+        """Announce the case that is about to be handed to the implementation (read back if it never returns)."""
+        (self.work / "in_flight.json").write_text(json.dumps(case, default=str))
+
+    def read_in_flight(self):
+        p = self.work / "in_flight.json"
+        try:
+            return json.loads(p.read_text())
+        except (OSError, ValueError):
+            return None
+
     # ---------------------------------------------------------------- step C
     def spec(self, holds: bool, key: str, what: str, case) -> bool:
         """The property's specification applied to an implementation result."""
@@ -305,6 +316,50 @@ class Check:
               f"mismatches={len(self.corr_mismatch)} violations={viol} wall={time.time() - self.t0:.1f}s")
         sys.stdout.flush()
         return 1 if viol else 0
+
+
+def run_in_child(fn, timeout_s: float):
+    """Run `fn()` in a forked child and return (True, result) - or (False, None) if it does not finish in time.
+
+    Compiled numba kernels cannot be interrupted from Python; a changed kernel that never returns would hang the
+    check.  Running the implementation phase of a stream in a child lets the parent kill it and turn the hang into a
+    reported failing input (the child announces each case before it starts it, see `Check.in_flight`).
+    """
+    import pickle
+    import select
+    import signal
+    r, w = os.pipe()
+    pid = os.fork()
+    if pid == 0:
+        try:
+            os.close(r)
+            data = pickle.dumps(fn(), protocol=pickle.HIGHEST_PROTOCOL)
+            with os.fdopen(w, "wb") as f:
+                f.write(data)
+            os._exit(0)
+        except BaseException:  # noqa: BLE001
+            import traceback
+            traceback.print_exc()
+            os._exit(3)
+    os.close(w)
+    chunks, deadline = [], time.time() + timeout_s
+    with os.fdopen(r, "rb") as f:
+        while True:
+            left = deadline - time.time()
+            if left <= 0:
+                os.kill(pid, signal.SIGKILL)
+                os.waitpid(pid, 0)
+                return False, None
+            ready, _, _ = select.select([f], [], [], min(left, 5.0))
+            if ready:
+                b = f.read1(1 << 20) if hasattr(f, "read1") else f.read(1 << 20)
+                if not b:
+                    break
+                chunks.append(b)
+    _, status = os.waitpid(pid, 0)
+    if status != 0 or not chunks:
+        raise RuntimeError(f"implementation phase failed in the child process (status {status})")
+    return True, pickle.loads(b"".join(chunks))
 
 
 _KF = None
